@@ -98,6 +98,7 @@ type Exp struct {
 	Class string
 	Pred  func(kit.Value) error
 	Why   string
+	Sub   []Exp // EExec: one expectation per queued command
 }
 
 func Val(v kit.Value) Exp       { return Exp{Kind: EVal, V: v} }
@@ -121,6 +122,8 @@ func (e Exp) Match(got kit.Value) error {
 	switch e.Kind {
 	case EAny:
 		return nil
+	case EExec:
+		return e.matchExec(got)
 	case EVal:
 		if !kit.Equal(e.V, got) {
 			return fmt.Errorf("reply %s, model expects %s", got, e.V)
@@ -169,6 +172,8 @@ func (e Exp) String() string {
 		return "<unordered " + e.V.String() + ">"
 	case EPairs:
 		return "<pairs " + e.V.String() + ">"
+	case EExec:
+		return fmt.Sprintf("<exec %v>", e.Sub)
 	}
 	return e.V.String()
 }
